@@ -234,7 +234,11 @@ func famRepro(tr *Trace, scratch string, seed int64, tier string, nfpmBin string
 			if second {
 				r.evs = append(r.evs, M{"ev": "envchange", "what": "tick", "value": "", "n": 0})
 			}
-			for i := 0; i < reps; i++ {
+			n := reps
+			if r.pc.Cfg.Arch == "arm64v8.0" { // a value looked up in tables: more draws of whatever order a table is walked in
+				n += 24
+			}
+			for i := 0; i < n; i++ {
 				inproc(r, "repeat")
 			}
 			if !second {
